@@ -54,7 +54,7 @@ class Operator(Token):
         if name == '%':
             expr = '{}%'.format(*expr)
         elif name in ('u-', 'u+'):
-            expr = '{}{}'.format(name[1], *expr)
+            expr = '{}{}'.format('--' if self._is_double_minus else name[1], *expr)
         elif name in ' ,:':
             expr = '(%s)' % ('%s ' % name.strip(' ')).join(expr)
         else:
@@ -104,8 +104,14 @@ class Operator(Token):
             builder.append(stack.pop())
         stack.append(self)
 
+    @property
+    def _is_double_minus(self):  # `--x` is not `+x`: it makes `x` a number.
+        return self.name == 'u+' and '-' in self.attr.get('sum_minus', '')
+
     def compile(self):
         from ..functions.operators import OPERATORS
+        if self._is_double_minus:
+            return OPERATORS['U--']
         return OPERATORS[self.name.upper()]
 
 
